@@ -48,6 +48,27 @@ theorem pairing_sets_consistent :
       | some f => bnOk f c
       | none => false) = true := by decide +kernel
 
+/-- the declared family / embedding degree matches the parameters in both directions: the order of p modulo r is 12 (resp.
+    the family's degree) exactly for the sets declared pairing-friendly, and exceeds 60 for all others -/
+theorem embedding_degrees_consistent :
+    Params.curves.all (fun c => match lookupField Params.fields c.field with
+      | some f => embedConsistent f.prime c
+      | none => false) = true := by decide +kernel
+
+/-- the advertised security level matches the parameters (generic-group bound, and equal levels for parameter sets of the same
+    family and sizes) -/
+theorem security_levels_consistent :
+    let all := Params.curves.filterMap (fun c => (lookupField Params.fields c.field).map (fun f => (f.prime, c)))
+    all.all (fun pc => levelConsistent all pc.1 pc.2) = true := by decide +kernel
+
+/-- every twist table entry is consistent with its base curve: field extension, generator on the twist, same order, and
+    h·r is one of the six possible twist orders over Fp2 -/
+theorem twists_consistent :
+    Params.curves.all (fun c => match c.twist, lookupField Params.fields c.field with
+      | none, _ => c.pairf == ""
+      | some t, some f => twistOk f.prime c t
+      | some _, none => false) = true := by decide +kernel
+
 /-- the table is not empty (the theorems above are not vacuous) -/
 theorem tables_nonempty : Params.fields.length ≥ 1 ∧ Params.curves.length ≥ 1 := by decide +kernel
 
